@@ -23,7 +23,8 @@ func (chain *BlockChain) GetBlockSequences(requestblock *types.ReqBlocks) (*type
 		chainlog.Error("GetBlockSequences input must Start <= End:", "startSeq", requestblock.Start, "endSeq", requestblock.End)
 		return nil, types.ErrEndLessThanStartHeight
 	}
-	if requestblock.End-requestblock.Start >= types.MaxBlockCountPerTime {
+	//Start为负数时End-Start可能溢出int64变为负值(此处已保证Start <= End), 同样视为超出数量限制
+	if requestblock.End-requestblock.Start >= types.MaxBlockCountPerTime || requestblock.End-requestblock.Start < 0 {
 		return nil, types.ErrMaxCountPerTime
 	}
 	end := requestblock.End
